@@ -211,12 +211,22 @@ class Run(object):
         self.tables = {"ip": [], "host": [], "mac": [], "ipv6": []}
         self.v6 = []             # per input line: addresses found by the live IPv6 pattern
         self.kw_subs = []
+        self.raised = None       # class name of an exception that escaped the implementation (not the designed SubIPError)
 
 
 def run_impl(case, scratch):
     cfg, call, lines = case["cfg"], case["call"], case["lines"]
     r = Run()
-    c = make_cleaner(cfg)
+    # Everything the implementation does — construction included — is behaviour under test: an exception that escapes
+    # it becomes the canonical outcome `raised:<ExceptionClass>` and goes to compare / oracle like any other outcome.
+    try:
+        c = make_cleaner(cfg)
+    except Exception as e:
+        r.raised = type(e).__name__
+        r.out = "raised:" + r.raised
+        r.lines_out = None
+        r.v6 = [[] for _ in lines]
+        return r
     rec = []
     v6 = c.obfuscate.get("ipv6")
     if v6 is not None:
@@ -272,18 +282,29 @@ def run_impl(case, scratch):
                     os.remove(dst)
         else:
             raise ValueError(route)
-    except ContentException:
-        raise
-    except Exception as e:   # the only exception the cleaner raises by design: SubIPError in width mode
+    except Exception as e:
+        # the only exception the cleaner raises by design is SubIPError in width mode (clean_file re-wraps whatever it
+        # caught into "Cannot Open File for Cleaning": there it can only be that one when width mode substitutes)
         msg = str(e.args[0]) if e.args else ""
+        width_sub = call["width"] and cfg["obfuscate"] and "ip" not in (no_obf or [])
         r.lines_out = None
-        r.out = "err:index" if ("SubIPError" in msg or "Cannot Open File for Cleaning" in msg) else "exc:" + type(e).__name__
-    for name, key in (("ip", "ip"), ("host", "hostname"), ("mac", "mac"), ("ipv6", "ipv6")):
-        ob = c.obfuscate.get(key)
-        if ob is not None:
-            r.tables[name] = [(m["original"], m["obfuscated"]) for m in ob.mapping()]
-    kwo = c.obfuscate.get("keyword")
-    r.kw_subs = [m["obfuscated"] for m in kwo.mapping()] if kwo else []
+        if "SubIPError" in msg or ("Cannot Open File for Cleaning" in msg and route == "file" and width_sub):
+            r.out = "err:index"
+        else:
+            r.raised = type(e).__name__
+            r.out = "raised:" + r.raised
+    try:
+        for name, key in (("ip", "ip"), ("host", "hostname"), ("mac", "mac"), ("ipv6", "ipv6")):
+            ob = c.obfuscate.get(key)
+            if ob is not None:
+                r.tables[name] = [(m["original"], m["obfuscated"]) for m in ob.mapping()]
+        kwo = c.obfuscate.get("keyword")
+        r.kw_subs = [m["obfuscated"] for m in kwo.mapping()] if kwo else []
+    except Exception as e:          # mapping() is implementation code too
+        if r.raised is None:
+            r.raised = type(e).__name__
+            r.out = "raised:" + r.raised
+            r.lines_out = None
     # IPv6: what the live pattern finds on the lines the stage received (bottom-up order)
     r.v6 = [[] for _ in lines]
     if v6 is not None and rec:
@@ -500,8 +521,20 @@ class Oracle(object):
     def check(self):
         case, r = self.case, self.r
         cfg, call, lines = case["cfg"], case["call"], case["lines"]
+        if r.raised is not None:
+            # an exception escaped the implementation.  Every configured pattern compiles on its own (plain and family
+            # patterns always do) and the reference says which lines go and which stay: the configured patterns were
+            # not applied.
+            pats = pats_of(cfg)
+            if pats and not call["no_redact"] and all("re" not in q or ref_compile(q["re"]) is not None for q in pats):
+                M = cleaner_mod.MAX_LINE_LENGTH
+                gone = [l for l in lines if l[:M] and any(pat_hit(q, l[:M]) for q in pats)]
+                self.fails.append(("pattern", "the implementation raised %s instead of cleaning: patterns %r each compile on their own; "
+                                   "of the lines %r, %d are matched by some pattern taken by itself and %d by none — the configured patterns are not applied"
+                                   % (r.raised, [q["plain"] if "plain" in q else pat_text(q) for q in pats], lines, len(gone), len(lines) - len(gone)), None))
+            return self.fails
         if r.lines_out is None:
-            return self.fails        # the call raised: nothing was produced
+            return self.fails        # SubIPError of the width mode: nothing was produced
         out = r.lines_out
         if call["route"] == "provider" and call["no_redact"] and set(call["no_obfuscate"] or []) == set(NAMES):
             return self.fails        # explicitly exempted from everything
@@ -1032,6 +1065,14 @@ def load_corpus():
 
 # --------------------------------------------------------------------------- recogniser streams
 
+def guard(f):
+    """run implementation code; an exception that escapes it is the outcome `raised:<ExceptionClass>`"""
+    try:
+        return f()
+    except Exception as e:
+        return "raised:" + type(e).__name__
+
+
 def recogniser_streams(chk, n):
     rng = chk.rng
     lines, impl, cases = [], [], []
@@ -1040,22 +1081,22 @@ def recogniser_streams(chk, n):
         # the alphabet of the stream, and now and then any printable ASCII character (neighbour classes of look-arounds)
         return "".join(rng.choice(alph) if rng.random() < 0.85 else chr(rng.randint(32, 126))
                        for _ in range(rng.randint(0, k)))
-    ip = IPv4()
+    ip = guard(IPv4)
     a_ip = ["0", "1", "2", "5", "25", "255", "256", "9", ".", ".", ".", "1.2.3.4", "10.0.0.1", " ", "x", u"\xe9", u"\xa4",
             ":", "-", "_", "/", "127.0.0.1", "249", "199", "01"]
     for _ in range(n):
         s = gen(a_ip, 12)
         lines.append("ipv4\t" + enc(s))
-        impl.append(items([m[0] for m in re.findall(ip.pattern, s)]))
+        impl.append(guard(lambda: items([m[0] for m in re.findall(ip.pattern, s)])))
         cases.append(("ipv4", s))
-    mac = Mac()
+    mac = guard(Mac)
     a_mac = ["52", "54", "00", "aa", "FF", "ff", "0", ":", ":", "-", " ", "x", "g", "52:54:00:aa:bb:cc", "00:00:00:00:00:00",
              "FF:ff:FF:ff:FF:ff", "AA-BB-CC-DD-EE-FF", u"\xe9", "_", "."]
     for _ in range(n):
         s = gen(a_mac, 14)
         lines.append("mac\t" + enc(s))
-        f = re.findall(mac.pattern, s, re.I)
-        impl.append(",".join(("!" if any(re.search(i, m[0], re.I) for i in mac._ignore_list) else "=") + enc(m[0]) for m in f) or "-")
+        impl.append(guard(lambda: ",".join(("!" if any(re.search(i, m[0], re.I) for i in mac._ignore_list) else "=") + enc(m[0])
+                                           for m in re.findall(mac.pattern, s, re.I)) or "-"))
         cases.append(("mac", s))
     a_h = ["web1", ".abc.com", "abc", "com", ".", "-", "_", " ", "x", "X", ",", u"\xe9", "\n", "a.b", ".abc.community",
            "abcXcom", ":", "1", ".corp.example.org", "corp"]
@@ -1065,20 +1106,21 @@ def recogniser_streams(chk, n):
             fq += ".lan"
         dm = system_domain(fq)
         s = gen(a_h + ["." + dm, "." + dm, "db07." + dm, "a.b." + dm, dm], 10)
-        h = Hostname(fq)
-        if s:
-            h.parse_line(s)
-        found = [m["original"] for m in h.mapping()][1:]     # first-discovery order, the system itself excluded
+        def host_run(fq=fq, s=s):
+            h = Hostname(fq)
+            if s:
+                h.parse_line(s)
+            return items([m["original"] for m in h.mapping()][1:])     # first-discovery order, the system itself excluded
         lines.append("host\t%s\t%s" % (enc(dm), enc(s)))       # the domain: derived here, not read from the object
-        impl.append(items(found))
+        impl.append(guard(host_run))
         cases.append(("host", fq, s))
     a_p = ["password", "password", "pass", "word", "_hash", "s", ":", "=", "==", " ", "  ", "\t", "\"", "--md5", "--md", "5",
            "55", "*", "********", "secret", "x", "!", "@", ".", ",", "\n", u"\xe9", "(", ")"]
-    pw = Password()
+    pw = guard(Password)
     for _ in range(2 * n):
         s = gen(a_p, 10) if rng.random() < 0.7 else g_password(rng) + gen(a_p, 3)
         lines.append("pw\t" + enc(s))
-        impl.append(enc(pw.parse_line(s)) if s else "-")
+        impl.append(guard(lambda: enc(pw.parse_line(s))) if s else "-")
         cases.append(("pw", s))
     a_r = ["a", "b", "ab", "aa", "", " "]
     for _ in range(n):
@@ -1092,11 +1134,16 @@ def recogniser_streams(chk, n):
         rx = g_rx(rng)
         s = gen(a_x, 8)
         lines.append("rx\t%s\t%s" % (rx_proto(rx), enc(s)))
-        c = Cleaner(conf, {"patterns": {"regex": [rx_text(rx)]}}, "h.example.org")
-        got = c.clean_content(s, no_obfuscate=list(NAMES)) if s else s
+        got = guard(lambda: Cleaner(conf, {"patterns": {"regex": [rx_text(rx)]}}, "h.example.org")
+                    .clean_content(s, no_obfuscate=list(NAMES)) if s else s)
+        cases.append(("rx", rx_text(rx), s))
+        if isinstance(got, str) and got.startswith("raised:") and s:
+            impl.append(got)
+            chk.failure("pattern: the implementation %s on pattern %r (which compiles on its own) and line %r: the configured pattern is not applied"
+                        % (got, rx_text(rx), s), {"op": "rx", "rx": rx, "line": s})
+            continue
         hit = (got is None)
         impl.append("1" if hit else "0")
-        cases.append(("rx", rx_text(rx), s))
         if s and hit != rx_hit(rx, s):
             chk.failure("exclusion pattern %r on line %r: the line is %s" % (rx_text(rx), s, "dropped although it does not match" if hit else "kept although it matches"),
                         {"op": "rx", "rx": rx, "line": s})
@@ -1162,7 +1209,7 @@ def classify(case, r):
     for t in ("ip", "host", "mac", "ipv6"):
         if r.tables[t]:
             tags.append("substituted:" + t)
-    if r.out.startswith("err") or r.out == "empty":
+    if r.out.startswith("err") or r.out.startswith("raised") or r.out == "empty":
         tags.append("result:" + r.out)
     return tags
 
@@ -1316,9 +1363,9 @@ def run(chk):
         cleaner_mod.MAX_LINE_LENGTH = saved
 
     # ---- notations outside the accepted list: reported, not alarmed on
-    pw = Password()
     chk.extra["password_notations_outside_accepted"] = [
-        {"line": l, "cleaned": pw.parse_line(l), "masked": "hunter2" not in pw.parse_line(l)} for l in OUTSIDE_NOTATIONS]
+        {"line": l, "cleaned": c, "masked": "hunter2" not in c}
+        for l, c in ((l, str(guard(lambda: Password().parse_line(l)))) for l in OUTSIDE_NOTATIONS)]
 
 
 def replay_one(case):
@@ -1349,29 +1396,36 @@ REC_OPS = {"ipv4": 1, "mac": 1, "host": 2, "pw": 1, "repl": 3, "rx": 2, "cls": 1
 def replay_recogniser(c):
     """one case of a recogniser stream: (name, args...) — implementation against model"""
     name = c[0]
+
+    def impl_side():
+        if name == "ipv4":
+            return items([m[0] for m in re.findall(IPv4().pattern, c[1])])
+        if name == "mac":
+            mac = Mac()
+            f = re.findall(mac.pattern, c[1], re.I)
+            return ",".join(("!" if any(re.search(i, m[0], re.I) for i in mac._ignore_list) else "=") + enc(m[0]) for m in f) or "-"
+        if name == "host":
+            h = Hostname(c[1])
+            if c[2]:
+                h.parse_line(c[2])
+            return items(sorted(set(m["original"] for m in h.mapping()) - {c[1]}))
+        if name == "pw":
+            return enc(Password().parse_line(c[1])) if c[1] else "-"
+        return enc(c[3].replace(c[1], c[2]))
     if name == "ipv4":
-        impl = items([m[0] for m in re.findall(IPv4().pattern, c[1])])
         line = "ipv4\t" + enc(c[1])
     elif name == "mac":
-        mac = Mac()
-        f = re.findall(mac.pattern, c[1], re.I)
-        impl = ",".join(("!" if any(re.search(i, m[0], re.I) for i in mac._ignore_list) else "=") + enc(m[0]) for m in f) or "-"
         line = "mac\t" + enc(c[1])
     elif name == "host":
-        h = Hostname(c[1])
-        if c[2]:
-            h.parse_line(c[2])
-        impl = items(sorted(set(m["original"] for m in h.mapping()) - {c[1]}))
-        line = "host\t%s\t%s" % (enc(c[1].split(".", 1)[1]), enc(c[2]))
+        line = "host\t%s\t%s" % (enc(system_domain(c[1]) or ""), enc(c[2]))
     elif name == "pw":
-        impl = enc(Password().parse_line(c[1])) if c[1] else "-"
         line = "pw\t" + enc(c[1])
     elif name == "repl":
-        impl = enc(c[3].replace(c[1], c[2]))
         line = "repl\t%s\t%s\t%s" % (enc(c[1]), enc(c[2]), enc(c[3]))
     else:
         print("no single-case replay for stream", name)
         return False
+    impl = guard(impl_side)
     m = run_driver("C08", [line])[0]
     if name == "host":
         m = items(sorted(set(dec(x[1:]) for x in m.split(",") if x != "-") - {c[1]}))
@@ -1405,11 +1459,13 @@ def replay(data):
         bad = alone != inside
     elif c.get("op") == "rx":
         rx, s = c["rx"], c["line"]
-        cl = Cleaner(InsightsConfig(obfuscate=False), {"patterns": {"regex": [rx_text(rx)]}}, "h.example.org")
-        got = cl.clean_content(s, no_obfuscate=list(NAMES))
+        got = guard(lambda: Cleaner(InsightsConfig(obfuscate=False), {"patterns": {"regex": [rx_text(rx)]}}, "h.example.org")
+                    .clean_content(s, no_obfuscate=list(NAMES)))
         want = rx_hit(rx, s)
-        print("pattern %r line %r: implementation %s, the pattern %s" % (rx_text(rx), s, "drops" if got is None else "keeps", "matches" if want else "does not match"))
-        bad = (got is None) != want
+        raised = isinstance(got, str) and got.startswith("raised:")
+        print("pattern %r line %r: implementation %s, the pattern %s" % (rx_text(rx), s, got if raised else "drops" if got is None else "keeps",
+                                                                       "matches" if want else "does not match"))
+        bad = raised or (got is None) != want
     else:
         bad, _ = replay_one(c["case"] if "case" in c else c)
     print("property violated on this input" if bad else "property holds on this input")
